@@ -7,6 +7,16 @@ COMMON_ASSUMPTIONS = [
 ]
 
 PROPS = {
+    "C13": {
+        "kinds": [("C13", 1500, 20000), ("C13T", 0, 8000)],
+        "rule": "one (tree shape with index holes, K in {2,3}; start node; traversal kind; skip schedule with repeated skips) per case plus all metrics; non-trivial = tree has at least 5 nodes; distinct by case text",
+        "assumptions": COMMON_ASSUMPTIONS + ["size_hint is judged against the number of items still to come if skip_subtree is not called again (the iterator cannot know future skips)"],
+    },
+    "C12": {
+        "kinds": [("C12", 400, 4000), ("C12T", 0, 1500)],
+        "rule": "one operation history on Tree<usize,K>, K in {2,3}, 5-30 (thorough: up to 120) steps over add_root/add_child_node/try_remove_child/remove_all_descendants/merge_child_with_parent/update_node with ~35% invalid arguments and index reuse; non-trivial = at least 12 steps; distinct by case text",
+        "assumptions": COMMON_ASSUMPTIONS + ["slab key allocation is a parameter of the model (the index the implementation used is checked to be fresh)", "calls that panic (label >= K, merge on a node without exactly one child) are outside the property and only recorded"],
+    },
     "C16": {
         "kinds": [("C16", 3000, 60000)],
         "rule": "one random operator/constructor call of AffFunc per case on lattice data (dims 1-5); non-trivial = the call returns (does not panic on a deliberately incompatible argument); distinct by case text",
